@@ -81,6 +81,9 @@ func cases(tier string, grid []item) []caseSpec {
 		pages := make([][]int, shards)
 		classIdx := map[string]int{}
 		for _, it := range grid {
+			if it.Policy {
+				continue
+			}
 			c := it.class()
 			if _, ok := classIdx[c]; !ok {
 				classIdx[c] = len(classIdx)
@@ -93,7 +96,7 @@ func cases(tier string, grid []item) []caseSpec {
 		}
 		// direct seeds: the seed's own response is the grid element, so the finish follows the fetch immediately
 		for _, it := range grid {
-			if it.Kind == "text" || it.Enc == "gzip" && it.Framing == "cl" || it.Enc == "identity" && it.Framing == "chunked" {
+			if it.Policy || it.Kind == "text" || it.Enc == "gzip" && it.Framing == "cl" || it.Enc == "identity" && it.Framing == "chunked" {
 				continue
 			}
 			switch it.Size {
@@ -105,6 +108,25 @@ func cases(tier string, grid []item) []caseSpec {
 				continue
 			}
 			out = append(out, caseSpec{Name: fmt.Sprintf("direct %s %s", d.name(), it.Path), Kind: "direct", Conf: d.conf(), Items: []int{it.ID}})
+		}
+		// the discard policy with codes below 400: --warc-discard-status lists other than the default
+		for _, list := range policyLists {
+			conf := d.conf()
+			conf.WARCDiscardStatus = list
+			var ids []int
+			for _, it := range grid {
+				if it.Policy {
+					ids = append(ids, it.ID)
+				}
+			}
+			out = append(out, caseSpec{Name: fmt.Sprintf("policy%v grid %s", list, d.name()), Kind: "grid", Conf: conf, Items: ids})
+			for _, id := range ids {
+				it := grid[id]
+				if tier != "thorough" && (it.Size != "2049" && it.Status != "204" || it.Status == "500" || it.Status == "403cf" || it.Status == "404") {
+					continue
+				}
+				out = append(out, caseSpec{Name: fmt.Sprintf("policy%v direct %s %s", list, d.name(), it.Path), Kind: "direct", Conf: conf, Items: []int{id}})
+			}
 		}
 	}
 	return out
@@ -239,6 +261,7 @@ func main() {
 	}
 	a := hkit.ParseArgs()
 	grid := fullGrid()
+	grid = append(grid, policyItems(len(grid))...)
 	if a.Replay != "" {
 		replay(a.Replay, grid)
 		return
@@ -315,6 +338,7 @@ func main() {
 		"explanation": "part B: boundary grid (sizes x kinds x encodings x framings x statuses) crawled by the real pipeline in a child process per case; snapshot of the WARC file sizes at the instant before the finisher's send to the source; files read up to the snapshot by an independent reader (harness/lib/e2e/warcread)",
 	}, []string{
 		"goroutine schedules inside a child are whatever the OS gives; they are not enumerated here (part A carries the schedule quantifier)",
+		"whether the discard policy rejects a response is decided by the harness from the case's --warc-discard-status list and the cf-mitigated header of the response the origin sent, never by asking Zeno's hook chain",
 		"the finish instant is the instrumented point before the finisher's send on sourceFinishedCh; files are append-only, so reading them later up to the recorded size shows exactly what was on disk then",
 		"max-retry 1 (retry 0 sleeps 0 s); the grid page is split over several seed pages per configuration, classes sharing a payload stay on one page",
 	}, hkit.Violations())
